@@ -7,11 +7,11 @@ RULE = ('Evaluation = one call of the real icao.significant_cloud on one okta se
         'independent fold (flag iff fewer than three flags so far and okta >= 1/3/5 for the 1st/2nd/3rd flag), '
         'length preserved, and flags of the sequence minus its last element equal to the flags of the parent '
         'sequence (tree walk, so every sequence is compared with its prefix). Workload: ALL sequences over okta '
-        '0..8 up to length L (exhaustive), random sequences up to length 40, every sequence up to length 4 called twice with the returned list edited in place in between and given as numpy (un)signed integer scalars, and the in-situ calls made by the '
+        '0..8 up to length L (exhaustive), random sequences up to length 40, every sequence up to length 4 called twice with the returned list edited in place in between and given as numpy (un)signed integer scalars, interleaved with calls that fail on invalid input, the same with the ampycloud loggers at DEBUG level (plus sequences of 15-45 layers), and the in-situ calls made by the '
         'pipeline on generated scenes (contract attached with icontract). Non-trivial = length >= 2; distinct by '
         'construction (enumeration) resp. hash.')
 ASSUMPTIONS = ['okta values are the integers 0..8']
-REQUIRED = ['exhaustive_tree', 'random_long', 'in_situ', 'repeat_after_caller_edit', 'numpy_integer_types']
+REQUIRED = ['exhaustive_tree', 'random_long', 'in_situ', 'repeat_after_caller_edit', 'numpy_integer_types', 'debug_logging']
 LMAX = {'quick': 7, 'thorough': 8}
 EXHAUSTIVE = {'quick': 'all okta sequences over 0..8 of length 1..7 (5 380 839 sequences)',
               'thorough': 'all okta sequences over 0..8 of length 1..8 (48 427 560 sequences)'}
@@ -24,6 +24,7 @@ def plan(tier, seed):
         for b in range(9):
             out.append({'fam': 'tree', 'root': [a, b], 'L': LMAX[tier], 's': seed, 'i': a * 9 + b})
     out.append({'fam': 'short', 's': seed, 'i': 100})
+    out.append({'fam': 'short', 's': seed, 'i': 101, 'debuglog': True})
     for j in range(4 if tier == 'quick' else 32):
         out.append({'fam': 'random', 'n': 1500, 's': seed, 'i': 200 + j})
     for j in range(8 if tier == 'quick' else 64):
@@ -92,6 +93,21 @@ def check(desc):
                 'counters': {'sequences_enumerated': n},
                 'sample': {'workload': 'exhaustive tree', 'root': root, 'max_length': L,
                            'example': [root + [8, 0, 5], [bool(x) for x in f(root + [8, 0, 5])]]} if desc['i'] % 27 == 0 else None}
+    if desc['fam'] == 'short' and desc.get('debuglog') and not desc.get('_inner'):
+        # the same family with the ampycloud loggers at DEBUG level, plus long sequences (> 20 layers)
+        from .. import env as _env
+        with _env.debug_logging():
+            out = check(dict(desc, _inner=True))
+            rng = scenes.rng_for(desc['s'], NUM, 4242)
+            for _ in range(300):
+                k = int(rng.integers(15, 45))
+                seq = [int(x) for x in rng.choice([0, 0, 1, 2, 2, 3, 4, 5, 8], k)]
+                g = f(seq)
+                out['evals'] += 1
+                _judge(seq, g, None, out['viol'])
+        out['tags'] = sorted(set(out['tags']) | {'debug_logging'})
+        out['viol'] = out['viol'][:20]
+        return out
     if desc['fam'] == 'short':
         import itertools
         import numpy as np
@@ -113,6 +129,19 @@ def check(desc):
                               oktas=seq, got=[bool(x) for x in g2] if isinstance(g2, list) else repr(g2)[:60], expected=fold(seq))
                 if isinstance(g2, list):
                     g2.clear()
+                if L == 3 and seq[0] in (2, 5):
+                    # a call that fails half-way (a record with a missing okta) must not influence later calls
+                    for bad in ([5, None, 3], [seq[0], 'x'], [1, float('nan'), object()]):
+                        try:
+                            f(list(bad))
+                        except Exception:      # noqa - invalid input, whatever is raised
+                            pass
+                        g4 = f(list(seq))
+                        n += 1
+                        if not _judge(seq, g4, None, []) and len(viol) < 20:
+                            oracles.V(viol, 'C17', 'result depends on an earlier call that failed on invalid input', oktas=seq,
+                                      failed_input=repr(bad), got=[bool(x) for x in g4] if isinstance(g4, list) else repr(g4)[:60],
+                                      expected=fold(seq))
                 if L <= 3 or seq[0] in (1, 8):
                     for dt in (np.uint8, np.int8, np.uint16, np.int64, np.uint64):
                         arr = [dt(v) for v in seq]
@@ -133,7 +162,7 @@ def check(desc):
         if g != []:
             oracles.V(viol, 'C17', 'empty sequence', got=repr(g))
         n += 1
-        return {'evals': n, 'nontrivial_n': n - 10, 'nontrivial': [], 'tags': ['length_0_1', 'repeat_after_caller_edit', 'numpy_integer_types'],
+        return {'evals': n, 'nontrivial_n': n - 10, 'nontrivial': [], 'tags': ['length_0_1', 'repeat_after_caller_edit', 'numpy_integer_types', 'debug_logging'],
                 'viol': viol[:20], 'counters': {'short_sequence_calls': n}}
     if desc['fam'] == 'random':
         rng = scenes.rng_for(desc['s'], NUM, desc['i'])
